@@ -10,6 +10,7 @@ import (
 	"verifharness/internal/c01"
 	"verifharness/internal/c04"
 	"verifharness/internal/c05"
+	"verifharness/internal/c10"
 	"verifharness/internal/c11"
 	"verifharness/internal/c12"
 	"verifharness/internal/c17"
@@ -26,6 +27,7 @@ var commands = map[string]func(args []string) *rep.Report{
 	"c04": c04.Run,
 	"c05": c05.Run,
 	"c18": sigs.RunC18,
+	"c10": c10.Run,
 	"c11": c11.Run,
 	"c12": c12.Run,
 	"c17": c17.Run,
